@@ -137,3 +137,15 @@ Proof.
   apply (chunk_order_permutation_all ex_graph r 2 E); [vm_compute; reflexivity|].
   assert (R : Some r = split ex_graph) by (symmetry; exact E). vm_compute in R. inversion R. vm_compute. lia.
 Qed.
+
+(* dynamic_import_resolves_to_entry_chunk on the example: e1 (2, chunk 1) does import(e0); e0 is
+   entry point 0 with entry chunk 0, recorded as a dynamic import of chunk 1 *)
+From V Require Import C10.DynProofs.
+Example ex_dynamic :
+  match split ex_graph with
+  | Some r => (entry_chunk_index 1 (a_chunks (r_analysis r)) 0, a_entries (r_analysis r),
+               map (fun i => (i_dynamic i, i_chunk i)) (x_imports (nth 1 (r_cross r) dcross)))
+              = (Some 0%nat, [1; 2]%nat, [(true, 0%nat); (false, 2%nat)])
+  | None => False
+  end.
+Proof. vm_compute. reflexivity. Qed.
